@@ -1,6 +1,7 @@
 """C05 - dialing.  spec/C05_Dial.tla (dialSync + worker + limiter, exhaustive incl. liveness) and the
 observable-level spec/C05_Obs.tla against which TLC validates executions of a real Swarm recorded under
 virtual time with scripted transports (code -> spec)."""
+import importlib
 import os
 import re
 
@@ -53,18 +54,30 @@ def run(ctx):
         path = save_replay(ctx, "swarm-trace-seed%d-%s.json" % (ctx.seed, v.name), v.as_dict())
         ctx.violations.append({"cls": cls, "replay": path, "what": "trace %s is not a behaviour of C05_Obs at event %d/%d: %s" % (
             v.name, v.matched, v.length, v.next_event)})
-    log("C05: MC %d states; scenarios %d, events %d; traces %d accepted, %d rejected %s"
-        % (states, res["replayed"], res["steps"], acc, len(rej), classes))
+    bo = backoff_part(ctx, thorough)
+    log("C05: MC %d states; scenarios %d, events %d; traces %d accepted, %d rejected %s; backoff %s"
+        % (states, res["replayed"], res["steps"], acc, len(rej), classes, bo.get("summary")))
     cov = evidence.mc_coverage(
-        states, trans, acc, res.get("samples") or [], exhaustive=True,
-        checker_cmd="tlc C05_MC.tla; tlc C05_Obs.tla on recorded swarm traces",
+        states + bo.get("states", 0), trans + bo.get("transitions", 0), acc + bo.get("replayed", 0),
+        (res.get("samples") or []) + bo.get("samples", []), exhaustive=True,
+        checker_cmd="tlc C05_MC.tla; tlc C05_Obs.tla on recorded swarm traces; tlc C05_BackoffMC.tla; tlc C05_BackoffObs.tla",
         mc_instances=mc, scenarios=res["replayed"], events=res["steps"], distinct_executions=res["distinct"],
-        traces_accepted=acc, traces_rejected=len(rej), rejected_classes=classes, divergences_L2=div, rule=res.get("rule"))
+        traces_accepted=acc, traces_rejected=len(rej), rejected_classes=classes, divergences_L2=div, rule=res.get("rule"),
+        backoff={k: v for k, v in bo.items() if k != "samples"})
     return {"level": "model_checking", "coverage": cov, "assumptions": [
         "virtual time (testing/synctest); scripted transports; one dialled peer per scenario",
         "a returned connection counts as unusable only if it had been closed before the call began",
         "back-off is not modelled in the observable spec: an error return demands that every usable address has failed at some point",
     ]}
+
+
+def backoff_part(ctx, thorough):
+    """The back-off clauses ("in back-off", "refused") live in checks/C05bo.py."""
+    try:
+        mod = importlib.import_module("checks.C05bo")
+    except ImportError:
+        return {"summary": "not built"}
+    return mod.run_part(ctx, thorough)
 
 
 def design_level(ctx, thorough):
